@@ -255,7 +255,8 @@ def _leaf_leaves(leaf, acc):
             cached = _OP_LEAVES.get(leaf[3])
             if cached is None:
                 s = set()
-                for a in OPS[leaf[3]][1:]:
+                pl = OPS[leaf[3]]
+                for a in ((pl[2],) if pl[0] == 'tbl' else pl[1:]):
                     leaves_of(a, s)
                 cached = frozenset(s)
                 _OP_LEAVES[leaf[3]] = cached
@@ -293,6 +294,16 @@ def eval_leaf(leaf, env):
             return 1 if eval_atom(leaf[3], env) else 0
         if leaf[2] in ('trunc', 'wrap'):
             return eval_term(leaf[3], env) & mask(leaf[1])
+        if leaf[2] == 'op' and leaf[3] in OPS:
+            pl = OPS[leaf[3]]
+            if pl[0] == 'tbl':
+                i = eval_term(pl[2], env)
+                if 0 <= i < len(pl[1]):
+                    return pl[1][i]
+                raise CannotEval(leaf)
+            if pl[0] in ('BitAnd', 'BitOr', 'BitXor') and len(pl) == 3:
+                x, y = eval_term(pl[1], env), eval_term(pl[2], env)
+                return {'BitAnd': x & y, 'BitOr': x | y, 'BitXor': x ^ y}[pl[0]] & mask(leaf[1])
     raise CannotEval(leaf)
 
 
@@ -901,6 +912,8 @@ def show_leaf(leaf):
             pl = OPS.get(leaf[3])
             if pl is None:
                 return 'op#%s' % leaf[3][:6]
+            if pl[0] == 'tbl':
+                return 'table%d[%s]' % (len(pl[1]), show_term(pl[2]))
             return '%s(%s)' % (pl[0], ', '.join(show_term(a) for a in pl[1:]))
         return 'opq:%s' % (leaf[2],)
     return repr(leaf)
